@@ -16,7 +16,7 @@ func VerifC04Sign() {
 	// signer CA (or none: self-signed)
 	selfSigned := verifBool("self_signed")
 	cg, cgm := c01Groups("ca_groups")
-	ca := &vCert{name: "ca", isCA: true, fp: "fp-ca", sigOK: true, nb: c04T("ca_nb"), na: c04T("ca_na"), groups: cg}
+	ca := &vCert{name: "ca", isCA: true, fp: "ca01", sigOK: true, nb: c04T("ca_nb"), na: c04T("ca_na"), groups: cg}
 	if verifBool("ca_has_net") {
 		ca.networks = []netip.Prefix{c01Prefix("ca_net")}
 	}
@@ -51,7 +51,7 @@ func VerifC04Sign() {
 		} else {
 			verifAssert(!tbs.IsCA, "a CA never signs another CA")
 			verifAssert(within, "an issued certificate satisfies every constraint of its signing CA")
-			verifAssert(c.Issuer() == "fp-ca", "the issuer is the signer's fingerprint")
+			verifAssert(c.Issuer() == "ca01", "the issuer is the signer's fingerprint")
 		}
 		verifAssert(c.IsCA() == tbs.IsCA && c.NotBefore().Equal(tbs.NotBefore) && c.NotAfter().Equal(tbs.NotAfter), "the issued certificate carries the requested fields")
 		verifObserve("signed", 1)
@@ -69,3 +69,7 @@ func VerifC04Sign() {
 func c04Invalid(t *TBSCertificate) bool {
 	return false
 }
+
+// c04DetailsMarshal replaces (*detailsV2).Marshal in the encoding: the ASN.1 bytes handed to the signer are not part
+// of this property (the constraint checks all run before marshalling); natively the real Marshal runs.
+func c04DetailsMarshal(d *detailsV2) ([]byte, error) { return make([]byte, 8), nil }
